@@ -417,7 +417,7 @@ Qed.
 Theorem g_parse_serialize (rel : list pattern_element -> list pattern_element -> Prop) with_junk t :
   (forall bs els V T used c nx p n,
       pok els = true -> vlay els V -> after_value T used c nx -> at_ bs p (V ++ T) ->
-      length (V ++ T) + 2 * c + 12 <= n ->
+      3 * length (V ++ T) + 12 <= n ->
       exists els', get_pattern bs n p = Ok (Some (Pattern els')) (used + (length V + p)) /\ rel els' els) ->
   (forall els V, pok els = true -> vlay els V ->
       exists k V0, V = sp k ++ V0 /\ vlay els (sp 0 ++ V0) /\ forall T, head_not is_space (V0 ++ T)) ->
